@@ -73,11 +73,13 @@ P("C03", [("V5", None), ("V20", None), ("V25", None)],
   "the solve_multiple callback loop (&mut dyn FnMut is outside Verus), termination.",
   "contract-based deductive verification: Verus on mechanically extracted function text, callee havoc contracts, in-place loop invariant")
 
-P("C07", [("V2", None)],
+P("C07", [("V2", None), ("V9", None)],
   "proof",
   "Partial (one anchored mechanism): Verus proves on the verbatim text of with_priorities that a high-priority candidate (impl-provided normalization) overrides a low-priority one "
-  "(placeholder fallback) exactly when both are for the same inputs, and otherwise the candidates are combined; the result is independent of argument order. Unbounded.",
-  "Not reached: clause generation for associated types (program_clauses.rs), relate_alias_ty, the solver search itself. Assumed: calculate_inputs abstract, Solution::combine's contract (V1).",
+  "(placeholder fallback) exactly when both are for the same inputs, and otherwise the candidates are combined; the result is independent of argument order; and on the verbatim text of "
+  "Unifier::relate_alias_ty that relating a projection with a type records exactly the goal `<projection> == type` in the unifier's environment (invariant position; nothing else happens), resp. "
+  "`<projection> == ?X` for a fresh root-universe unknown that is then related to the type at the same variance. Unbounded.",
+  "Not reached: clause generation for associated types (program_clauses.rs, clauses.rs), the solver search itself. Assumed: calculate_inputs abstract, Solution::combine's contract (V1).",
   "contract-based deductive verification: Verus on mechanically extracted function text")
 
 P("C13", [("V1", None), ("V2", None), ("V18", None), ("K1", r"^k3_l_priority_meet")],
@@ -131,6 +133,7 @@ P("C29", [("V9", None), ("K1", r"^k3_"), ("K7", None)],
   "invariant: both), that an unknown lifetime is bound only for an invariant relation whose value its universe can name and otherwise yields exactly those requirements, and — as a lemma "
   "over these contracts and the verified variance composition — that `&'a T <: &'b T` requires exactly `'a: 'b` (unbounded). Kani proves the variance algebra (full domain) and that "
   "zip_substs relates argument i at ambient∘declared[i], in order, stopping at the first failure (BOUNDED: <= 3 arguments).",
+  "Also (V9) the projection rule: at a co-/contravariant position a projection is equated with a fresh unknown which is related to the other side at the SAME variance. "
   "Not reached: relate_ty_ty's arms themselves (Ref/Raw/Adt/Tuple/FnDef/Function), relate_lifetime_lifetime (reference patterns), 'structures agree', the two-unknowns flounder rule.",
   "contract-based deductive verification: Verus on extracted text + Kani function contracts / harness contracts")
 
